@@ -33,6 +33,7 @@ for d in seeded/*/; do
   [ -n "$PAT" ] && [[ "$d" != *$PAT* ]] && continue
   ids=$(python3 -c "import json,sys; m=json.load(open('$d/meta.json')); t=m['property_broken'][:3]; d=m['detected_by']; o=[t] if t in d else []; o+= [x for x in d if x!=t][:1 if o else 2]; print(' '.join(o))")
   [ -f "${d}meta.json" ] || continue
+  [ -n "$ids" ] || { echo "skip   ${d}patch.diff (documented as not detected)"; continue; }
   # a seeded change counts as lost only if NONE of its recorded detectors (owner first) flags it any more
   res=$(tools/mutant.sh "${d}patch.diff" $ids 2>&1); total=$((total+1))
   if echo "$res" | grep -qE "^C[0-9]+ exit=1"; then echo "ok     ${d}patch.diff $(echo "$res" | grep -oE "^C[0-9]+ exit=[0-9]+" | tr '\n' ' ')";
